@@ -3,7 +3,8 @@ MC: MC_PVMMem (every load/store opcode x addresses around the edges of a window 
     absent pages and the zone below 2^16; sbrk scripts around page boundaries and the heap limit).
 G:  PVM_MemGen writes the same partition as driver cases; a seeded share of them gets page 19 present but
     inaccessible (as after an inner `pages` call).  T: seeded random programs biased to loads/stores and sbrk.
-X:  harness/pvm.  V: PVM_Trace (Mode c01): exit kind, fault address range, registers and memory after every run."""
+X:  harness/pvm.  V: PVM_Trace (Mode both: the block engine AND the single-step engine against the specification): exit kind,
+    fault address range, registers and memory after every run."""
 import importlib.util, json, os, sys
 sys.path.insert(0, os.path.dirname(os.path.abspath(__file__)))
 import vf
@@ -50,5 +51,5 @@ def run(ctx):
     ctx.cov["rule"] = ("cases = TLC-enumerated (opcode, address) and sbrk scripts (quick: sampled to 600) + seeded random load/store/sbrk programs; "
                        "non-trivial = distinct (code, registers, access map, heap limit) runs")
     ctx.cov["samples"] = [json.loads(x) for x in lines[:1] + lines[-1:]]
-    vf.validate_trace(ctx, "PVM_Trace", lines, constants={"Mode": '"c01"'}, shard=220 if q else 1000, par=14, timeout=3000,
+    vf.validate_trace(ctx, "PVM_Trace", lines, constants={"Mode": '"both"'}, shard=220 if q else 1000, par=14, timeout=3000,
                       what="memory protection deviates from the specification")
